@@ -288,6 +288,38 @@ pub fn drive_huge(s: &mut Session, rng: &mut Rng, runs: usize) {
     s.scale = 0;
 }
 
+/// steps from rest whose size, and whose first filter outputs, are at the bottom of the f32 range
+/// (logged through the same exact power-of-two scaling): coverage at t/10 and t must still hold
+pub fn drive_tiny(s: &mut Session, rng: &mut Rng, runs: usize) {
+    for r in 0..runs {
+        let fs = *rng.pick(&RATES);
+        s.scale = *rng.pick(&[-104i32, -110, -116, -120]);
+        s.start(fs);
+        let unit = (2.0f32).powi(s.scale);
+        let t = match r % 4 {
+            0 => 10.0f32,
+            1 => *rng.pick(&[0.5f32, 2.0, 8.0]),
+            2 => 0.0,
+            _ => (rng.unit() * 10.0) as f32,
+        };
+        s.set_time(t);
+        let n_eff = ((t.min(10.0) as f64) * fs as f64).max(2.0) as u64;
+        let mut x = 0.0f32;
+        for _ in 0..2 {
+            // a step from rest (the output has settled on the previous input)
+            let mut nx = x;
+            while nx == x {
+                nx = (rng.range(-29, 29) as f32) * unit;
+            }
+            x = nx;
+            s.hold(x, n_eff / 10 + 4, 40);
+            s.hold(x, n_eff - n_eff / 10 + 8, 6);
+            s.hold(x, 3 * n_eff + 40, 4);
+        }
+    }
+    s.scale = 0;
+}
+
 /// chains of nearby set_time calls (the 0.05 s dead band), then a step that reveals which time is
 /// in effect
 pub fn drive_deadband(s: &mut Session, rng: &mut Rng, runs: usize) {
@@ -391,6 +423,7 @@ pub fn record(driver: &str, seed: u64, thorough: bool, out: &mut Out) -> Stats {
             drive_sched(&mut s, &mut rng, if thorough { 3000 } else { 300 });
             drive_stall(&mut s, &mut rng, if thorough { 300 } else { 30 });
             drive_huge(&mut s, &mut rng, if thorough { 200 } else { 20 });
+            drive_tiny(&mut s, &mut rng, if thorough { 120 } else { 16 });
         }
         "deadband" => drive_deadband(&mut s, &mut rng, if thorough { 400 } else { 40 }),
         "extreme" => drive_extreme(&mut s, &mut rng, if thorough { 200 } else { 30 }),
